@@ -228,6 +228,10 @@ def gen(rng, n):
                 pps.sort(key=lambda p: idx.get(sol.TrajectoryType[p["ty"]].value, 99))
             c = {"op": "doc", "sid": sid, "ver": ver, "pps": pps}
             rand_meta(rng, c)
+            if rng.random() < 0.3:
+                # the planning-problem id of one entry is re-assigned (a plain public attribute) after the Solution was
+                # built: the solution then reports the new id, and that is the id the document has to carry
+                c["reid"] = [rng.randrange(m), rng.choice([i for i in range(60, 90)])]
         elif k < 0.6:  # constructor alone, any combination (admissible or not)
             vm = rng.choice(list(sol.VehicleModel)).name
             ty = rng.choice(list(sol.TrajectoryType)).name
@@ -297,7 +301,10 @@ def build_solution(c):
         warnings.simplefilter("ignore")
         sid = ScenarioID.from_benchmark_id(c["sid"], c["ver"])
     ct = None if c["ct"] is None else dec(c["ct"])
-    return sol.Solution(sid, [r[1] for r in res], date=date_of(c), computation_time=ct, processor_name=c["pn"]), res
+    so = sol.Solution(sid, [r[1] for r in res], date=date_of(c), computation_time=ct, processor_name=c["pn"])
+    if c.get("reid"):
+        res[c["reid"][0]][1].planning_problem_id = c["reid"][1]
+    return so, res
 
 
 def write(solution):
@@ -733,8 +740,8 @@ def corr(ctx, cases):
     use, terms = [], []
     skipped = 0
     for c in cases:
-        if c.get("op") not in ("doc", "tree", "type"):
-            continue
+        if c.get("op") not in ("doc", "tree", "type") or c.get("reid"):
+            continue    # re-assigned ids: judged by the oracle only (the model's solution is a value)
         t = coq_term(c)
         if t is None:
             skipped += 1
